@@ -262,27 +262,53 @@ let arun_file (path : string) =
          match !cur with
          | None -> print_endline "skip"
          | Some s ->
-           let aop = parse_aop s l in
-           let (s', (o, evs)) = astep s aop in
-           List.iter (function LLost v -> lost := v :: !lost | _ -> ()) evs;
-           let es = List.sort compare (List.filter_map str_lev evs) in
            (* program order of one poll: attempt, registration (Waker clones), second attempt *)
-           let poll_trace k f =
+           let regs_of (s : astate) k = (match tget k s.wk with Some t when t <> s.task -> ["reg"; "reg"] | _ -> ["reg"]) in
+           let poll_trace (s : astate) k f =
              let (m1, (x1, _)) = step s.base f in
              if refused x1 then
-               let regs = (match tget k s.wk with Some t when t <> s.task -> "reg,reg" | _ -> "reg") in
-               String.concat "," (List.filter (fun x -> x <> "") [str_trace s.base f; regs; str_trace m1 f])
+               String.concat "," (List.filter (fun x -> x <> "") ([str_trace s.base f] @ regs_of s k @ [str_trace m1 f]))
              else str_trace s.base f in
-           let at = (match aop with
+           let at_of (s : astate) aop o = (match aop with
                | ADirect d -> if o = OBad then "" else str_trace s.base d
-               | APoll f | AHold f -> if o = OBad then "" else (match future_of f with Some k -> poll_trace k f | None -> "")
-               | ARepoll k -> (match tget k s.held with Some f -> poll_trace k f | None -> "")
+               | APoll f | AHold f -> if o = OBad then "" else (match future_of f with Some k -> poll_trace s k f | None -> "")
+               | ARepoll k -> (match tget k s.held with Some f -> poll_trace s k f | None -> "")
                | _ -> "") in
+           let is_inj = String.length l > 4 && String.sub l 0 4 = "inj " in
+           let (s', o, evs, at, res) =
+             if is_inj then begin
+               (* `inj <poll> | <step of another stage>`: the other stage acts inside the polling task's Waker::clone (Async.astep_inj) *)
+               let body = String.sub l 4 (String.length l - 4) in
+               let bar = String.index body '|' in
+               let aop = parse_aop s (String.trim (String.sub body 0 bar)) in
+               let d = parse_aop s (String.trim (String.sub body (bar + 1) (String.length body - bar - 1))) in
+               let ((s', (o, evs)), xi) = astep_inj s aop d in
+               let fk = (match aop with
+                   | APoll f | AHold f -> (match future_of f with Some k -> Some (k, f) | None -> None)
+                   | ARepoll k -> (match tget k s.held with Some f -> Some (k, f) | None -> None)
+                   | _ -> None) in
+               let at = (match fk, xi with
+                   | Some (k, f), Some x ->
+                     let (m1, _) = step s.base f in
+                     let s1 = register k (set_base m1 s) in
+                     let (si, _) = astep s1 d in
+                     let regs = regs_of s k in
+                     String.concat "," (List.filter (fun x -> x <> "") ([str_trace s.base f; List.hd regs; at_of s1 d x] @ List.tl regs @ [str_trace si.base f]))
+                   | Some (k, f), None -> if o = OBad then "" else str_trace s.base f
+                   | None, _ -> "") in
+               (s', o, evs, at, str_out o ^ " inj:" ^ (match xi with Some x -> str_out x | None -> "-"))
+             end else begin
+               let aop = parse_aop s l in
+               let (s', (o, evs)) = astep s aop in
+               (s', o, evs, at_of s aop o, str_out o)
+             end in
+           List.iter (function LLost v -> lost := v :: !lost | _ -> ()) evs;
+           let es = List.sort compare (List.filter_map str_lev evs) in
            (* oracle for C15: which kept futures would complete if polled now *)
            let sat k = (match tget k s'.held with
                | Some _ -> (match astep s' (ARepoll k) with (_, (OPending, _)) -> "0" | _ -> "1")
                | None -> "-") in
-           Printf.printf "%s | %s | ev=%s | at=%s ## sat=%s%s%s\n" (str_out o) (aobs s') (String.concat "," es) at (sat P) (sat W) (sat C);
+           Printf.printf "%s | %s | ev=%s | at=%s ## sat=%s%s%s\n" res (aobs s') (String.concat "," es) at (sat P) (sat W) (sat C);
            cur := Some s'
      done
    with End_of_file -> ());
@@ -569,8 +595,9 @@ let gen_arand seed count lo hi =
            let heldk = (match tget k !s.held with Some _ -> true | None -> false) in
            let isdet = (it_of k m).det in
            let a = avail_i k m in
-           let small () = if chance 70 then rnd (a + 1) else rnd (len_i m + 2) in
-           let futop () =
+           let futop_for k =
+             let a = avail_i k m in
+             let small () = if chance 70 then rnd (a + 1) else rnd (len_i m + 2) in
              match k with
              | P -> (match rnd 8 with
                  | 0 | 1 | 2 -> Printf.sprintf "push %d" (List.hd (fresh_vals g 1))
@@ -585,6 +612,7 @@ let gen_arand seed count lo hi =
                  | 3 -> if owned then Printf.sprintf "cloneslice %d" (small ()) else Printf.sprintf "%s %d" (pick ["copyslice"; "cloneslice"]) (small ())
                  | 4 -> "peek" | 5 -> Printf.sprintf "peekslice %d" (small ()) | 6 -> "peekavail"
                  | _ -> pick ["get1 C"; Printf.sprintf "getn C %d" (small ()); "getavail C"]) in
+           let futop () = futop_for k in
            let t =
              if heldk then pick ["repoll " ^ sname k; "repoll " ^ sname k; "dropfut " ^ sname k; Printf.sprintf "task %d" (rnd 3)]
              else if isdet then
@@ -604,8 +632,32 @@ let gen_arand seed count lo hi =
                | 5 | 6 | 7 -> "hold " ^ futop ()
                | 8 -> if a > 0 && not owned then Printf.sprintf "edit %s %d %d" (sname k) (rnd a) (1000 * (1 + rnd 9)) else "avail " ^ sname k
                | _ -> futop () in
+           (* a poll (one-shot, kept, or a re-poll) during whose waker registration ANOTHER stage acts: the only way to reach the
+              "second attempt succeeds" branch of MRBFuture::poll; candidates that make the refused operation possible are preferred *)
+           let is_poll = (match parse_aop !s t with APoll _ | AHold _ | ARepoll _ -> true | _ -> false) in
+           let others = List.filter (fun k' -> k' <> k && (match tget k' !s.held with None -> true | Some _ -> false)) ks in
+           let t =
+             if is_poll && others <> [] && chance 30 then begin
+               let cand () =
+                 let k' = pick others in
+                 if (it_of k' m).det then pick [Printf.sprintf "adv %s %d" (sname k') (rnd (avail_i k' m + 1)); "sync " ^ sname k'; "attach " ^ sname k']
+                 else if chance 75 then futop_for k'
+                 else pick ["avail " ^ sname k'; Printf.sprintf "adv %s %d" (sname k') (rnd (avail_i k' m + 1)); (if k' = P then "avail P" else "reset " ^ sname k')] in
+               let cands = List.init 6 (fun _ -> cand ()) in
+               let enabling d = (match astep_inj !s (parse_aop !s t) (parse_aop !s d) with
+                   | ((_, (o, _)), Some _) -> o <> OPending && o <> OBad
+                   | _ -> false) in
+               let d = (match List.filter enabling cands with d :: _ when chance 80 -> d | _ -> List.hd cands) in
+               Printf.sprintf "inj %s | %s" t d
+             end else t in
            print_endline t;
-           let (s', _) = astep !s (parse_aop !s t) in
+           let s' =
+             if String.length t > 4 && String.sub t 0 4 = "inj " then begin
+               let body = String.sub t 4 (String.length t - 4) in
+               let bar = String.index body '|' in
+               let ((s', _), _) = astep_inj !s (parse_aop !s (String.trim (String.sub body 0 bar)))
+                                    (parse_aop !s (String.trim (String.sub body (bar + 1) (String.length body - bar - 1)))) in s'
+             end else fst (astep !s (parse_aop !s t)) in
            s := s'
          done
        with Exit -> ())
